@@ -104,6 +104,12 @@ func main() {
 		c10ReplayMain(os.Args[2:])
 	case "c10-confirm":
 		c10ConfirmMain(os.Args[2:])
+	case "c10-one":
+		c10OneMain(os.Args[2:])
+	case "c10-isolated":
+		c10IsolatedMain(os.Args[2:])
+	case "c10-history-witness":
+		c10HistoryWitnessMain(os.Args[2:])
 	case "c10-digest":
 		c10DigestMain(os.Args[2:])
 	case "c11":
